@@ -62,7 +62,7 @@ if not ok:
     print(res["demo_pristine_tail"], res["demo_changed_tail"], res["suite_tail"])
     sys.exit(1)
 os.makedirs(DST, exist_ok=True)
-for f in ("patch.diff", "demo_test.go", "notes.md"):
+for f in ("patch.diff", "patch_rebased.diff", "demo_test.go", "notes.md"):
     if os.path.exists(os.path.join(SRC, f)):
         shutil.copy(os.path.join(SRC, f), os.path.join(DST, f))
 notes = open(os.path.join(SRC, "notes.md")).read() if os.path.exists(os.path.join(SRC, "notes.md")) else ""
